@@ -48,6 +48,7 @@ In the future, these wrapper functions may be replaced with a dependency on
 
 
 from functools import wraps
+from math import prod
 from typing import Any, Callable, Optional, Sequence, Tuple, Union
 
 import numpy as np
@@ -72,6 +73,27 @@ from scico.typing import BlockShape, DType, Shape
 from scipy import optimize as spopt
 
 
+def _ravel(x: Union[Array, BlockArray]) -> Array:
+    """Flatten an array or a block array into a single 1D array.
+
+    The blocks of a :class:`.BlockArray` are ravelled and concatenated.
+    """
+    if isinstance(x, BlockArray):
+        return jnp.concatenate([jnp.ravel(blk) for blk in x])
+    return jnp.ravel(x)
+
+
+def _unravel(x: Array, shape: Union[Shape, BlockShape]) -> Union[Array, BlockArray]:
+    """Reshape a 1D array to `shape`, the inverse of :func:`_ravel`.
+
+    If `shape` is nested, the result is a :class:`.BlockArray`.
+    """
+    if snp.util.is_nested(shape):
+        idx = np.cumsum([prod(s) for s in shape])[:-1]
+        return snp.blockarray([jnp.reshape(blk, s) for blk, s in zip(jnp.split(x, idx), shape)])
+    return jnp.reshape(x, shape)
+
+
 def _wrap_func(func: Callable, shape: Union[Shape, BlockShape], dtype: DType) -> Callable:
     """Function evaluation for use in :mod:`scipy.optimize`.
 
@@ -90,7 +112,7 @@ def _wrap_func(func: Callable, shape: Union[Shape, BlockShape], dtype: DType) ->
     @wraps(func)
     def wrapper(x, *args):
         # apply val_grad_func to un-vectorized input
-        val = val_func(snp.reshape(x, shape).astype(dtype), *args)
+        val = val_func(_unravel(x, shape).astype(dtype), *args)
 
         # Convert val into numpy array, cast to float, convert to scalar
         val = np.array(val).astype(float)
@@ -122,12 +144,12 @@ def _wrap_func_and_grad(func: Callable, shape: Union[Shape, BlockShape], dtype: 
     @wraps(func)
     def wrapper(x, *args):
         # apply val_grad_func to un-vectorized input
-        val, grad = val_grad_func(snp.reshape(x, shape).astype(dtype), *args)
+        val, grad = val_grad_func(_unravel(x, shape).astype(dtype), *args)
 
         # Convert val & grad into numpy arrays, then cast to float
         # Convert 'val' into a scalar, rather than ndarray of shape (1,)
         val = np.array(val).astype(float).item()
-        grad = np.array(grad).astype(float).ravel()
+        grad = np.array(_ravel(grad)).astype(float)
         return val, grad
 
     return wrapper
@@ -218,7 +240,7 @@ def minimize(
 
     x0_shape = x0.shape
     x0_dtype = x0.dtype
-    x0 = x0.ravel()  # if x0 is a BlockArray it will become a jax array here
+    x0 = _ravel(x0)  # if x0 is a BlockArray it will become a jax array here
 
     # Run the SciPy minimizer
     if method in (
@@ -261,7 +283,7 @@ def minimize(
     )
 
     # un-vectorize the output array from spopt.minimize
-    res.x = snp.reshape(
+    res.x = _unravel(
         res.x, x0_shape
     )  # if x0 was originally a BlockArray then res.x is converted back to one here
 
